@@ -79,7 +79,11 @@ impl CountComputer {
         loop {
             // TODO have to fix below line being called even the next chunk does not exist
             pbar.set_message(format!("Processing chunk: {}", self.chunks + 1));
+            #[cfg(feature = "verif_hooks")]
+            ktio::verif::emit("ctr.chunk_begin", &[self.chunks]);
             let records = self.count_chunk(&pbar);
+            #[cfg(feature = "verif_hooks")]
+            ktio::verif::emit("ctr.chunk_end", &[self.chunks, records]);
             if records > 0 {
                 self.chunks += 1;
             } else {
@@ -109,19 +113,48 @@ impl CountComputer {
                 let total_kmers_so_far_clone = Arc::clone(&total_kmers_so_far);
 
                 scope.spawn(move |_| {
+                    #[cfg(feature = "verif_hooks")]
+                    ktio::verif::emit("ctr.worker_start", &[]);
                     loop {
+                        #[cfg(feature = "verif_hooks")]
+                        {
+                            ktio::verif::emit("ctr.before_limit_check", &[]);
+                            ktio::verif::emit(
+                                "ctr.limit_obs",
+                                &[
+                                    total_kmers_so_far_clone.load(Ordering::Relaxed),
+                                    (1_000_000_000_f64 * self.memory_ceil_gb / 8.0) as u64,
+                                ],
+                            );
+                        }
                         // when limit reached exit without further reads
                         if total_kmers_so_far_clone.load(Ordering::Relaxed)
                             > (1_000_000_000_f64 * self.memory_ceil_gb / 8.0) as u64
                         {
+                            #[cfg(feature = "verif_hooks")]
+                            ktio::verif::emit("ctr.worker_exit_limit", &[]);
                             break;
                         }
+                        #[cfg(feature = "verif_hooks")]
+                        ktio::verif::emit("ctr.before_take", &[]);
                         let record = { records_arc_clone.lock().unwrap().next() };
                         if let Some(record) = record {
+                            #[cfg(feature = "verif_hooks")]
+                            ktio::verif::emit(
+                                "ctr.after_take",
+                                &[record.n as u64, record.seq.len() as u64],
+                            );
+                            #[cfg(feature = "verif_hooks")]
+                            let mut verif_idx = [0_u64; 2];
                             pbar.inc(1);
                             total_records_clone.fetch_add(1, Ordering::Acquire);
                             for (fmer, rmer) in KmerGenerator::new(&record.seq, self.ksize) {
                                 let min_mer = min(fmer, rmer);
+                                #[cfg(feature = "verif_hooks")]
+                                {
+                                    verif_idx[0] = verif_idx[0].max(min_mer % self.n_parts + 1);
+                                    verif_idx[1] += 1;
+                                }
                                 unsafe {
                                     counts_table_arc_clone
                                         .get_unchecked((min_mer % self.n_parts) as usize)
@@ -131,10 +164,30 @@ impl CountComputer {
                                 }
                             }
 
+                            #[cfg(feature = "verif_hooks")]
+                            {
+                                ktio::verif::emit(
+                                    "ctr.counted",
+                                    &[
+                                        record.n as u64,
+                                        verif_idx[1],
+                                        verif_idx[0],
+                                        counts_table_arc_clone.len() as u64,
+                                    ],
+                                );
+                                ktio::verif::emit(
+                                    "ctr.before_add_total",
+                                    &[record.n as u64, record.seq.len() as u64],
+                                );
+                            }
                             total_kmers_so_far_clone
                                 .fetch_add(record.seq.len() as u64, Ordering::Relaxed);
+                            #[cfg(feature = "verif_hooks")]
+                            ktio::verif::emit("ctr.after_add_total", &[record.n as u64]);
                         } else {
                             // end of iteration
+                            #[cfg(feature = "verif_hooks")]
+                            ktio::verif::emit("ctr.worker_exit", &[]);
                             break;
                         }
                     }
@@ -163,6 +216,11 @@ impl CountComputer {
                         buff.write_all(format!("{}\t{:?}\n", k, v).as_bytes())
                             .unwrap();
                     });
+                    #[cfg(feature = "verif_hooks")]
+                    ktio::verif::emit(
+                        "ctr.part_flush",
+                        &[part as u64, self.chunks, map.len() as u64],
+                    );
                 })
         });
 
@@ -185,6 +243,9 @@ impl CountComputer {
             .progress_chars("#>-"),
         );
 
+        #[cfg(feature = "verif_hooks")]
+        ktio::verif::emit("ctr.merge_begin", &[self.n_parts, self.chunks, delete as u64]);
+
         for part in 0..self.n_parts {
             let completed = Arc::new(AtomicU64::new(0));
             let map: SccMap<Kmer, u32> = SccMap::new();
@@ -200,17 +261,32 @@ impl CountComputer {
                     scope.spawn(move |_| {
                         let path =
                             format!("{}/temp_kmers.part_{}_chunk_{}", self.out_dir, part, chunk);
+                        #[cfg(feature = "verif_hooks")]
+                        ktio::verif::emit("ctr.merge_before_read", &[part, chunk]);
+                        #[cfg(feature = "verif_hooks")]
+                        let mut verif_lines = 0_u64;
                         let file = fs::File::open(&path).unwrap();
                         let buff = BufReader::new(file);
                         for line in buff.lines().map_while(Result::ok) {
+                            #[cfg(feature = "verif_hooks")]
+                            {
+                                verif_lines += 1;
+                            }
                             let mut parts = line.trim().split('\t');
                             let kmer: Kmer = parts.next().unwrap().parse().unwrap();
                             let count: u32 = parts.next().unwrap().parse().unwrap();
                             *map_arc_clone.entry(kmer).or_insert(0) += count;
                         }
+                        #[cfg(feature = "verif_hooks")]
+                        {
+                            ktio::verif::emit("ctr.merge_read", &[part, chunk, verif_lines]);
+                            ktio::verif::emit("ctr.merge_before_delete", &[part, chunk]);
+                        }
                         if delete {
                             delete_file_if_exists(&path).expect("file must be removable");
                         }
+                        #[cfg(feature = "verif_hooks")]
+                        ktio::verif::emit("ctr.merge_task_done", &[part, chunk]);
                         completed_clone.fetch_add(1, Ordering::Acquire);
                         pbar_clone.inc(1);
                     });
@@ -228,6 +304,8 @@ impl CountComputer {
                         .unwrap();
                 }
             });
+            #[cfg(feature = "verif_hooks")]
+            ktio::verif::emit("ctr.merge_part_done", &[part, map_arc.len() as u64]);
         }
 
         pbar.finish();
@@ -246,6 +324,28 @@ impl CountComputer {
         );
         self.n_parts = n_parts;
         self.seq_count = stats.seq_count as u64;
+        #[cfg(feature = "verif_hooks")]
+        ktio::verif::emit(
+            "ctr.init",
+            &[
+                self.n_parts,
+                self.seq_count,
+                stats.total_length as u64,
+                self.threads as u64,
+            ],
+        );
+    }
+}
+
+/// accessors for the verification harness only
+#[cfg(feature = "verif_hooks")]
+impl CountComputer {
+    pub fn verif_chunks(&self) -> u64 {
+        self.chunks
+    }
+
+    pub fn verif_n_parts(&self) -> u64 {
+        self.n_parts
     }
 }
 
